@@ -8,7 +8,7 @@ use std::io::{BufRead, Write};
 use std::panic::{catch_unwind, AssertUnwindSafe};
 
 mod langs {
-    include!("../../mirsmt/lang/src/lib.rs");
+    include!(concat!(env!("VERIF_DIR"), "/mirsmt/lang/src/lib.rs"));
 }
 use langs::*;
 use slotted_egraphs::*;
